@@ -40,12 +40,14 @@ CLAIMS["C16"] = dict(category="proof",
 CLAIMS["C03"] = proof(
     "Proved for every history and every initial count / add_permits argument in N: conservation count + alive + forgotten = initial + added (C03_conserve, hence never over-issues), "
     "try_acquire exact (C03_try_exact), drop returns exactly one, forget none, add_permits(n) exactly n. Hypothesis stated in the theorems: initial + added < 2^64 (the code has no overflow check). "
-    "Schedule half not yet proved. " + CORR, NOTE)
+    "Schedule half proved: C03_conserve_sched — for every interleaving of compare_exchange(c, c-1) (any expected value) / fetch_add by any number of threads, count + permits held + forgotten = initial + added (coq/Sched/SemSched.v; unbounded counter there, the 2^64 wrap is in the history machine). " + CORR, NOTE)
 
 CLAIMS["C02"] = proof(
     "History half proved: C02_excl_hist — in every reachable state of every history over the full RwLock alphabet (five future kinds, borrowed and Arc, try_*, upgrade, try_upgrade, three downgrades, "
     "cancellation anywhere) at most one write guard, at most one upgradable guard, and a write guard excludes all others; from the invariant state = 2*(R+U) + W + H, mutex word = tickets + U + W + H, U+W+H <= 1. "
-    "Schedule and happens-before halves not yet proved (pinned by Tie_Raw / Tie_Mutex). " + CORR, NOTE)
+    "Schedule half proved: C02_excl_sched — for EVERY interleaving of the atomic sites on the state word by ANY number of threads (control flow over-approximated; compare_exchange with any, however stale, expected value; "
+    "the inner mutex taken as an atomic lock, justified by C01_excl_sched, the composition being an assumption of the machine) at most one writer, at most one of {upgradable reader, announced writer}, a writer excludes every reader, "
+    "and the word counts what is held (coq/Sched/RwSched.v, 15 sites). Happens-before half for the RwLock not proved (its Orderings are pinned by Tie_Raw but flow into no theorem). " + CORR, NOTE)
 CLAIMS["C11"] = proof(
     "History half proved: C11_single_converter_hist (at most one of upgradable guard / write guard / announced writer / pending upgrade in every reachable state), C11_value_frame (the value changes only "
     "through a write guard), C11_pending_upgrade_excludes (try_read / try_upgradable_read / try_write fail while a writer or upgrade is pending). Schedule half not yet proved: a split of a conversion into two "
@@ -88,7 +90,9 @@ CLAIMS["C04"] = proof(
     "History half proved for every history of fewer than 2^64-2 operations (wait / get_or_init / get_or_try_init / set futures polled with any wakers in any order, closures' futures resolved Ok / Err / panic at any time or never, "
     "cancellation at every point, get, take, drop): C04_once — initialised at most once since the last take and exactly once iff Initialized; at most one initialiser closure running, and one iff the state is Initializing (none is started "
     "once initialised); the slot holds a value iff Initialized; the state word is always one of the three states. C04_value_visible — every value any operation returns (wait, get_or_init, get_or_try_init, Ok of set, get, take) is the value "
-    "stored by the one successful initialiser, and the cell is (for take: was) Initialized. C04_no_error — no debug_assert / unreachable branch, no spinning. Not proved (monitored on the implementation + correspondence): payload drop count "
+    "stored by the one successful initialiser, and the cell is (for take: was) Initialized. C04_no_error — no debug_assert / unreachable branch, no spinning. Schedule half: C04_excl_sched — for every interleaving of the atomic sites on the state word by any number of threads exactly one initialiser while Initializing, "
+    "none otherwise, the slot written only by it, initialised at most once. Happens-before half: C04_hb_view — in the release/acquire view semantics every reference handed out by a load that reads Initialized is to a value whose complete write is in the "
+    "receiving thread's view; its only premises about the code are the Orderings read from the source (loads Acquire, store of Initialized Release: once_ord_premises; coq/Sched/OnceSched.v). Not proved (monitored on the implementation + correspondence): payload drop count "
     "('dropped exactly once'), set's Err(value) hand-back as a theorem; blocking forms and thread interleavings (pinned by Tie_OnceCell, no-failing-input-found). " + CORR, NOTE)
 CLAIMS["C08"] = proof(
     "History half proved for every history (alphabet as C04): C08_waiters_finish — Initialized and every woken task re-polled => no wait / get_or_init / get_or_try_init / set is pending (both events were notified with notify_additional(MAX), "
